@@ -19,6 +19,9 @@ def _(self, t, fn):
 
 @normalize_type.register_generic(tuple)
 def _(self, t, fn):
+    if len(t.__args__) == 2 and t.__args__[1] is Ellipsis:
+        # tuple[X, ...]: any number of X (checked like the other sequences)
+        return SequenceFastCheck[(self(t.__args__[0], fn),)]
     args = tuple(self(arg, fn) for arg in t.__args__)
     return ProductType[args]
 
